@@ -1,5 +1,6 @@
 import AggkitModel.Properties.C02
 import AggkitModel.Generated.CertFacts
+import AggkitModel.Generated.InitialStatus
 /-
 C13 — certificate bookkeeping survives crashes and a lost database.
 Property theorems only. The operations quantified over include `crash` (between two loop iterations), a tick whose
@@ -213,5 +214,107 @@ example : (run sizeExact {} (demoOps.take 6)).up = false ∧ (run sizeExact {} (
 theorem C13_code_facts :
     Gen.CertFacts.metaDecodeLayout = ["0", "1:9", "9:13", "13:17", "1:9", "9:13", "13:17", "17"] ∧
     Gen.CertFacts.metaEncodeLayout = ["0", "1:9", "9:13", "13:17", "17"] := by decide
+
+/-! ### the decision function, regenerated from the source -/
+
+open Aggkit.GenPrelude
+
+def stCode : St → Nat
+  | .pending => 0 | .proven => 1 | .candidate => 2 | .inError => 3 | .settled => 4
+def hdrOfCert (c : ACert) : CertHdr := { Height := c.height, Status := stCode c.status, CertificateID := c.id }
+def hdrOfRow (r : Row) : CertHdr := { Height := r.height, Status := stCode r.status, CertificateID := r.id }
+def encodeAct : Option Action → Ret
+  | none => .error
+  | some .none => .result 0 none
+  | some (.update c) => .result 1 (some (hdrOfCert c))
+  | some (.insert c) => .result 2 (some (hdrOfCert c))
+
+theorem stCode_inError (s : St) : (stCode s == 3) = decide (s = .inError) := by cases s <;> rfl
+
+/-- case split on a proposition, keeping it as a rewrite rule for the PROPOSITION (`P = True` / `P = False`), never for a term -/
+syntax "bcases " ident " : " term " => " tactic : tactic
+macro_rules
+  | `(tactic| bcases $h:ident : $p:term => $t:tactic) =>
+    `(tactic| ((by_cases $h:ident : $p) <;> (first | replace $h:ident := eq_false $h | replace $h:ident := eq_true $h) <;> $t:tactic))
+
+/-- **the decision table of the start-up reconciliation IS the source**: `Gen.InitialStatus.initialStatus_process` is the
+    translation of `initialStatus.process` (with `checkAgglayerConsistenceCerts` and `getLatestAggLayerCert`) that
+    `tools/goextract` regenerates from aggsender/statuschecker/initial_state.go on every run — pointers as `Option`, a nil
+    dereference as `none`. For every combination of Agglayer answers and local record the Go function returns what the
+    model's `process` (about which `process_spec` and the C13 theorems speak) returns, and never dereferences nil.
+    Heights are `uint64` in the code: the hypothesis excludes only a local record at height 2^64-1. -/
+theorem C13_process_is_the_source (settled pending : Option ACert) (loc : Option Row) (hb : ∀ l ∈ loc, l.height + 1 < 2^64) :
+    Gen.InitialStatus.initialStatus_process ⟨settled.map hdrOfCert, pending.map hdrOfCert, loc.map hdrOfRow⟩
+      = some (encodeAct (process settled pending loc)) := by
+  have hmod : ∀ l ∈ loc, (l.height + 1) % 18446744073709551616 = l.height + 1 := fun l hl =>
+    Nat.mod_eq_of_lt (by have := hb l hl; simpa using this)
+  cases settled with
+  | none =>
+    cases pending with
+    | none => cases loc <;> simp [Gen.InitialStatus.initialStatus_process, Gen.InitialStatus.initialStatus_checkAgglayerConsistenceCerts,
+    Gen.InitialStatus.initialStatus_getLatestAggLayerCert, Gen.InitialStatus.CertificateStatus_IsInError,
+    Gen.InitialStatus.InError, Gen.InitialStatus.InitialStatusActionNone, Gen.InitialStatus.InitialStatusActionInsertNewCert,
+    Gen.InitialStatus.InitialStatusActionUpdateCurrentCert,
+    process, agglayerConsistent, encodeAct, hdrOfCert, hdrOfRow, stCode_inError, add64]
+    | some p =>
+      cases loc with
+      | none =>
+        simp [Gen.InitialStatus.initialStatus_process, Gen.InitialStatus.initialStatus_checkAgglayerConsistenceCerts,
+    Gen.InitialStatus.initialStatus_getLatestAggLayerCert, Gen.InitialStatus.CertificateStatus_IsInError,
+    Gen.InitialStatus.InError, Gen.InitialStatus.InitialStatusActionNone, Gen.InitialStatus.InitialStatusActionInsertNewCert,
+    Gen.InitialStatus.InitialStatusActionUpdateCurrentCert,
+    process, agglayerConsistent, encodeAct, hdrOfCert, hdrOfRow, stCode_inError, add64]
+        bcases h1 : p.status = .inError => bcases h2 : p.height = 0 => simp [h1, h2, Nat.pos_iff_ne_zero]
+      | some l =>
+        have hm := hmod l rfl
+        simp [Gen.InitialStatus.initialStatus_process, Gen.InitialStatus.initialStatus_checkAgglayerConsistenceCerts,
+    Gen.InitialStatus.initialStatus_getLatestAggLayerCert, Gen.InitialStatus.CertificateStatus_IsInError,
+    Gen.InitialStatus.InError, Gen.InitialStatus.InitialStatusActionNone, Gen.InitialStatus.InitialStatusActionInsertNewCert,
+    Gen.InitialStatus.InitialStatusActionUpdateCurrentCert,
+    process, agglayerConsistent, encodeAct, hdrOfCert, hdrOfRow, stCode_inError, add64, hm]
+        bcases h1 : p.status = .inError => bcases h2 : p.height = 0 => bcases h3 : p.height < l.height =>
+          bcases h4 : p.height = l.height + 1 => bcases h5 : l.id = p.id => bcases h6 : l.status = .inError =>
+          bcases h7 : p.height = l.height => simp [h1, h2, h3, h4, h5, h6, h7, Nat.pos_iff_ne_zero]
+  | some st =>
+    cases pending with
+    | none =>
+      cases loc with
+      | none => simp [Gen.InitialStatus.initialStatus_process, Gen.InitialStatus.initialStatus_checkAgglayerConsistenceCerts,
+    Gen.InitialStatus.initialStatus_getLatestAggLayerCert, Gen.InitialStatus.CertificateStatus_IsInError,
+    Gen.InitialStatus.InError, Gen.InitialStatus.InitialStatusActionNone, Gen.InitialStatus.InitialStatusActionInsertNewCert,
+    Gen.InitialStatus.InitialStatusActionUpdateCurrentCert,
+    process, agglayerConsistent, encodeAct, hdrOfCert, hdrOfRow, stCode_inError, add64]
+      | some l =>
+        have hm := hmod l rfl
+        simp [Gen.InitialStatus.initialStatus_process, Gen.InitialStatus.initialStatus_checkAgglayerConsistenceCerts,
+    Gen.InitialStatus.initialStatus_getLatestAggLayerCert, Gen.InitialStatus.CertificateStatus_IsInError,
+    Gen.InitialStatus.InError, Gen.InitialStatus.InitialStatusActionNone, Gen.InitialStatus.InitialStatusActionInsertNewCert,
+    Gen.InitialStatus.InitialStatusActionUpdateCurrentCert,
+    process, agglayerConsistent, encodeAct, hdrOfCert, hdrOfRow, stCode_inError, add64, hm]
+        bcases h3 : st.height < l.height =>
+          bcases h4 : st.height = l.height + 1 => bcases h5 : l.id = st.id => bcases h6 : l.status = .inError =>
+          bcases h7 : st.height = l.height => simp [h3, h4, h5, h6, h7]
+    | some p =>
+      cases loc with
+      | none =>
+        simp [Gen.InitialStatus.initialStatus_process, Gen.InitialStatus.initialStatus_checkAgglayerConsistenceCerts,
+    Gen.InitialStatus.initialStatus_getLatestAggLayerCert, Gen.InitialStatus.CertificateStatus_IsInError,
+    Gen.InitialStatus.InError, Gen.InitialStatus.InitialStatusActionNone, Gen.InitialStatus.InitialStatusActionInsertNewCert,
+    Gen.InitialStatus.InitialStatusActionUpdateCurrentCert,
+    process, agglayerConsistent, encodeAct, hdrOfCert, hdrOfRow, stCode_inError, add64]
+        bcases g1 : p.height = st.height => bcases g2 : st.status = .inError => bcases g3 : p.height < st.height =>
+          simp [g1, g2, g3]
+      | some l =>
+        have hm := hmod l rfl
+        simp [Gen.InitialStatus.initialStatus_process, Gen.InitialStatus.initialStatus_checkAgglayerConsistenceCerts,
+    Gen.InitialStatus.initialStatus_getLatestAggLayerCert, Gen.InitialStatus.CertificateStatus_IsInError,
+    Gen.InitialStatus.InError, Gen.InitialStatus.InitialStatusActionNone, Gen.InitialStatus.InitialStatusActionInsertNewCert,
+    Gen.InitialStatus.InitialStatusActionUpdateCurrentCert,
+    process, agglayerConsistent, encodeAct, hdrOfCert, hdrOfRow, stCode_inError, add64, hm]
+        bcases g1 : p.height = st.height => bcases g2 : st.status = .inError => bcases g3 : p.height < st.height =>
+          bcases h3 : p.height < l.height =>
+          bcases h4 : p.height = l.height + 1 => bcases h5 : l.id = p.id => bcases h6 : l.status = .inError =>
+          bcases h7 : p.height = l.height => simp [g1, g2, g3, h3, h4, h5, h6, h7]
+
 
 end Aggkit.Aggsender
